@@ -83,4 +83,19 @@ PROPS = {
                 "non-zero continuation phases); a third of the cases run the GenBank form, a third the GFF form (both against model and spec), a third "
                 "compare the two real runs as per-row multisets",
     },
+    "C01": {
+        "streams": {"C01": (500, 10000)},
+        "thorough_seeds": 3,
+        "rule": "reference 10-120 nt; 1-6 queries of 1-3 records (disjoint or overlapping; agreeing or conflicting templates); CIGARs from a grammar over all nine "
+                "operators with leading/trailing H and S, leading/trailing D, N skips, adjacent I/D, =/X, P; records aligning no base at all; unmapped (0x4), "
+                "secondary (0x100) and mixed-flag records interleaved under the same or another name; --pad, --start/--end (either or both), --wrap "
+                "(1, 7, 60, L, L+2), threads 1/2/4/16; sam.ToMultiAlign in-process; non-trivial = some CIGAR has an operator other than M",
+    },
+    "C02": {
+        "streams": {"C02": (500, 10000)},
+        "thorough_seeds": 3,
+        "rule": "as C01 with every query's records on disjoint reference intervals (non-conflicting), 0-5 insertions per record incl. after the last aligned base, "
+                "adjacent to D; reference file with IUPAC codes / lower case now and then; --skip-insertions, --omit-reference, --start/--end, --wrap, threads; "
+                "sam.ToPairAlign in-process in directory mode, files read back in query order",
+    },
 }
